@@ -11,7 +11,7 @@ import pandas as pd
 # pool of dimensions: key -> (name, letter, items, dtype)
 POOL = {
     "T": ("Time", "t", (2000, 2001, 2002), int),
-    "N": ("Number", "n", (1, 2), None),
+    "N": ("Number", "n", (0, 1), None),  # untyped integer items starting at 0 (they look like a default row index)
     "S": ("Sector", "s", ("x", "y"), str),
     "U": ("Unit", "u", ("u1", "u2", "u3"), None),
     "O": ("One", "o", ("only",), str),
